@@ -249,3 +249,6 @@ func NoDeadlock(label string) {
 
 // DeepEqual: structural equality.
 func DeepEqual(a, b interface{}) bool { return reflect.DeepEqual(a, b) }
+
+// ShortReads has no native counterpart (the real reader decides itself).
+func ShortReads(on bool) {}
